@@ -13,7 +13,7 @@ unsafe impl<T: ?Sized + Send> Send for Mutex<T> {}
 unsafe impl<T: ?Sized + Send> Sync for Mutex<T> {}
 
 impl<T> Mutex<T> {
-    pub fn new(t: T) -> Self { Mutex { raw: RawLock::new(), data: UnsafeCell::new(t) } }
+    pub const fn new(t: T) -> Self { Mutex { raw: RawLock::new(), data: UnsafeCell::new(t) } }
     pub fn into_inner(self) -> T { self.data.into_inner() }
 }
 impl<T> From<T> for Mutex<T> { fn from(t: T) -> Self { Mutex::new(t) } }
@@ -46,7 +46,7 @@ impl<R, T: ?Sized> Drop for ArcMutexGuard<R, T> { fn drop(&mut self) { self.m.ra
 pub struct RwLock<T: ?Sized> { raw: RawLock, data: UnsafeCell<T> }
 unsafe impl<T: ?Sized + Send> Send for RwLock<T> {}
 unsafe impl<T: ?Sized + Send + Sync> Sync for RwLock<T> {}
-impl<T> RwLock<T> { pub fn new(t: T) -> Self { RwLock { raw: RawLock::new(), data: UnsafeCell::new(t) } } }
+impl<T> RwLock<T> { pub const fn new(t: T) -> Self { RwLock { raw: RawLock::new(), data: UnsafeCell::new(t) } } }
 impl<T: ?Sized> RwLock<T> {
     pub fn read(&self) -> RwLockReadGuard<'_, T> { self.raw.lock_shared(); RwLockReadGuard { l: self } }
     pub fn write(&self) -> RwLockWriteGuard<'_, T> { self.raw.lock_exclusive(); RwLockWriteGuard { l: self } }
@@ -79,7 +79,7 @@ pub mod lock_api { pub use super::{ArcMutexGuard, ArcRwLockReadGuard, ArcRwLockW
 
 pub struct Condvar { ev: Event }
 impl Condvar {
-    pub fn new() -> Self { Condvar { ev: Event::new() } }
+    pub const fn new() -> Self { Condvar { ev: Event::new() } }
     pub fn notify_one(&self) { self.ev.bump(); }
     pub fn notify_all(&self) { self.ev.bump(); }
     pub fn wait<T: ?Sized>(&self, guard: &mut MutexGuard<'_, T>) {
